@@ -10,6 +10,7 @@ INVARIANT ExitLaw
 INVARIANT MinSweeps
 INVARIANT Budget
 INVARIANT CbCalls
+INVARIANT StagLaw
 PROPERTY Terminates
 PROPERTY NotMissed
 CHECK_DEADLOCK FALSE
